@@ -185,7 +185,8 @@ impl<T: Elem + SatisfyTraits<Tr>, M: MX, Tr: TrX + ?Sized> World<T, M, Tr> {
             Ok(Some(d)) => d,
             Ok(None) => { out.outcome.push_str("skipped"); return; }
             Err(Caught::Injected) => { out.faulted = true; return; }
-            Err(Caught::Panic(m)) => { out.fail(Class::Machinery, "foreign-vec", m); return; }
+            // (constructions that must panic - N elements do not fit in SIZE bytes - are filtered out by `foreign_vec_impl`)
+            Err(Caught::Panic(m)) => { out.fail(Class::Cap, "construction-panicked", format!("constructing an empty vector of another element type on {} panicked: {m}", M::name())); return; }
         };
         if !M::RESIZABLE && d.capacity() < len { out.outcome.push_str("skipped-room"); let _ = guarded(move || drop(d)); return; }
         let before = elem::with_reg(|r| r.clones + r.zst_clones);
